@@ -104,8 +104,10 @@ Definition model_outcome (c : pcase) : pout :=
       end
   end.
 
-(* the accessors as the source currently has them: thermal_cx_pec (openadas.py:408-427) replaces
-   receiver_element by its element BEFORE asking for the wavelength *)
+(* the accessors as the source had them BEFORE /repo commit 4f8cd49: thermal_cx_pec replaced
+   receiver_element by its element before asking for the wavelength.  Kept as the record of that
+   finding (Proofs/C07_Policy.v: code_thermal_cx_pec_refuted); the current source agrees with
+   model_outcome on every case. *)
 Definition code_wl_kind (c : pcase) : kind :=
   match acc c with
   | ABeamCXPEC => k2 c
